@@ -1941,3 +1941,19 @@ package sarama
 //@   ensures[claim_names_its_partition] err == nil ==> claim != nil && claim.topic == topic && claim.partition == partition
 //@   ensures[claim_records_its_start] err == nil ==> claim.offset == old(offset) || claim.offset == old(sess.parent.config.Consumer.Offsets.Initial)
 //@   nosafety
+
+// release: inside the once-only release step, Cleanup (when requested) comes before the offset manager is closed
+// (its Close performs the final commit), and the heartbeat loop is stopped last. The ghost field records that the
+// handler's Cleanup has returned. (That release runs after every claim has returned is the WaitGroup's doing and
+// is not decided here.)
+//@ ghost field consumerGroupSession.cleaned bool
+//@ func (om *offsetManager) Close() trusted
+//@   returns err
+//@   modifies nothing
+//@ func consumerGroupSession.release#lit0() props C07
+//@   requires s != nil && s.parent != nil && !s.cleaned
+//@   callsite ConsumerGroupHandler.Cleanup: requires[cleanup_only_when_requested] withCleanup
+//@   callsite ConsumerGroupHandler.Cleanup: effect s.cleaned
+//@   callsite ConsumerGroupHandler.Cleanup: modifies s.cleaned
+//@   callsite offsetManager.Close: requires[final_commit_after_cleanup] withCleanup ==> s.cleaned
+//@   nosafety
